@@ -25,7 +25,8 @@ Ops == {"Select", "Where"}
 Params == {"x", "y"}
 Breaks == {"none", "dot", "paren", "body", "close", "all"}
 Decos == {"none", "str", "cmt", "fstr"}     \* fstr: an f-string whose literal part is one unbalanced bracket
-Wraps == {"fn", "if", "method", "comp", "cond", "nested", "with"}
+\* defline: the enclosing function is a one-line def with the statement on the SAME line (def q(ds): return ds.Select(lambda ..))
+Wraps == {"fn", "if", "method", "comp", "cond", "nested", "with", "defline"}
 Extras == {"none", "before_same", "before_other", "after_same"}
 
 CallRec(op, p, brk, deco) == [op |-> op, p |-> p, brk |-> brk, deco |-> deco]
@@ -40,6 +41,7 @@ LinesDisjoint(lines) == \A i, j \in 1..Len(lines) : i # j => Range(lines[i]) \ca
 (* only a lambda (or one-line def) written directly as the operator's argument is a supported layout; a lambda *)
 (* that reaches the operator through a variable or a wrapper call must still be the right one, or raise     *)
 Direct(lay) == lay.kind \in {"lambda", "def"}
-Supported(lay, lines) == Direct(lay) /\ (Distinguishable(lay) \/ LinesDisjoint(lines))
+(* a def keyword on the lambda's own line is not a documented layout (right lambda or raise is still required) *)
+Supported(lay, lines) == Direct(lay) /\ lay.wrap # "defline" /\ (Distinguishable(lay) \/ LinesDisjoint(lines))
 
 =============================================================================
